@@ -134,7 +134,7 @@ def classify_c18(mode, st, recipe, plain_recipe, annotated, plain, clause):
         ra, rp = pipeline.compile_all([(recipe, [st2]), (plain_recipe, [st2])])
         if "teal" in ra[0] and "teal" in rp[0]:
             import tealtok
-            sa, sp = tealtok.strip_comments(ra[0]["teal"]), tealtok.strip_comments(rp[0]["teal"])
+            sa, sp = (tealtok.canonical_labels(tealtok.strip_comments(r[0]["teal"])) for r in (ra, rp))
             if sa == sp or _comment_on_zero_op(recipe):
                 return "A18/comment-between-store-and-load-disables-slot-optimisation"
         return None
